@@ -43,10 +43,19 @@ def claimed_table():
         rows.append('| %s | (not claimed) | %s |' % (c['property_id'], c['reason']))
     return '\n'.join(rows) + '\n'
 
+def asbuilt():
+    m = json.load(open(os.path.join(ROOT, 'MANIFEST.json')))
+    out = []
+    for c in m['checks']:
+        p = c['property_id']
+        out.append('**%s** — %s\n\n*Trusted / partial:* %s\n' % (p, c['level_claimed']['text'], c['level_note']))
+    return '\n'.join(out)
+
+
 def main():
     p = os.path.join(ROOT, 'DESIGN.md')
     s = open(p).read()
-    for key, fn in (('FINDINGS', findings_table), ('SEEDED', seeded_table), ('CLAIMED', claimed_table)):
+    for key, fn in (('FINDINGS', findings_table), ('SEEDED', seeded_table), ('CLAIMED', claimed_table), ('ASBUILT', asbuilt)):
         b, e = '<!-- BEGIN %s -->' % key, '<!-- END %s -->' % key
         if b in s:
             s = s[:s.index(b) + len(b)] + '\n' + fn() + s[s.index(e):]
